@@ -342,8 +342,11 @@ def judge(it, argv, info, r, before, after, recorded, ctx, mode):
     target = info.get("target")
     file_new = [p for p in created if after[p][0] == "file"]
     if it["file"] != "none" and target is not None and (target in created or os.path.realpath(target) in created or file_new):
+        leak = has_wallet_data(r["out"])
+        if leak:
+            raise Violation("C20/accepted/stdout-and-file", "%s wrote a file and also printed wallet data (%s)" % (what, leak))
         if r["out"].strip():
-            raise Violation("C20/accepted/stdout-and-file", "%s wrote a file and also printed %r" % (what, r["out"][:80]))
+            ctx.count("message-on-stdout-while-saving-to-file")
         real = [p for p in file_new]
         if len(real) != 1:
             raise Violation("C20/accepted/files", "%s created files %r" % (what, sorted(map(os.path.basename, created))))
